@@ -7,6 +7,7 @@ under the kernel's scheduler) and offers the driver API used by the checks:
 feed bytes, call controller methods, advance simulated time, observe.
 """
 import asyncio
+import gc
 import hashlib
 import logging
 import os
@@ -71,11 +72,23 @@ def install():
         return
     assert os.path.realpath(mysensors.__file__).startswith(os.path.realpath(REPO)), mysensors.__file__
     logging.disable(logging.CRITICAL)
+    # The cyclic collector runs at allocation-count dependent moments and finalises garbage of
+    # *earlier* runs (pending coroutines of a torn-down loop execute their except/finally blocks
+    # in traced library code) inside whatever thread happens to allocate: that perturbs the
+    # line-event numbering of the current run.  Collection is done explicitly in World.close().
+    gc.disable()
     kernel.install_thread_patches()
-    for mod in (mysensors.task, mysensors.transport, serial.threaded):
-        mod.threading = kernel.ThreadingShim
-    for mod in (mysensors.task, mysensors.handler, mysensors.gateway_tcp, mysensors.gateway_serial):
-        mod.time = kernel.TimeShim
+    import threading as _real_threading  # pylint: disable=import-outside-toplevel
+    import time as _real_time  # pylint: disable=import-outside-toplevel
+    for name, mod in list(sys.modules.items()):
+        # every library module that refers to threading / time gets the shims (a real lock
+        # held by a parked thread would hang the simulation)
+        if mod is None or not (name == "mysensors" or name.startswith("mysensors.") or name == "serial.threaded"):
+            continue
+        if getattr(mod, "threading", None) is _real_threading:
+            mod.threading = kernel.ThreadingShim
+        if getattr(mod, "time", None) is _real_time:
+            mod.time = kernel.TimeShim
     mysensors.task.timer = kernel.sim_timer
     mysensors.gateway_serial.serial = devices.SerialShim
     mysensors.gateway_serial.serial_asyncio = aio.SerialAsyncioShim
@@ -84,6 +97,26 @@ def install():
     for mod in (mysensors.persistence, mysensors.ota):
         mod.open = simfs.FsHolder.open
         mod.os = simfs.DynOsShim
+    # observation seam: every call of Persistence.save_sensors (scheduled or final) is
+    # reported to the active run (begin / end with the exception, if any)
+    _orig_save = mysensors.persistence.Persistence.save_sensors
+
+    def save_sensors(self):
+        sim = kernel.CURRENT
+        hook = getattr(sim, "save_hook", None) if sim is not None else None
+        if hook is not None:
+            hook("begin", self, None)
+        try:
+            res = _orig_save(self)
+        except BaseException as exc:
+            if hook is not None:
+                hook("end", self, exc)
+            raise
+        if hook is not None:
+            hook("end", self, None)
+        return res
+
+    mysensors.persistence.Persistence.save_sensors = save_sensors
     # warm-up: import every const module, build every gateway class once
     from mysensors import const  # pylint: disable=import-outside-toplevel
     for ver in VERSIONS:
@@ -186,6 +219,7 @@ class World:
         def logic(data):
             world.device.mark(("begin", data))
             world.sim.ev("logic", data)
+            world.sim.count("logic_calls")
             idx = len(world.logic_log)
             world.logic_log.append([data, len(world.callbacks), None, None])
             try:
@@ -339,6 +373,16 @@ class World:
         leaked = self.sim.shutdown()
         if self.loop is not None:
             try:
+                for task in list(asyncio.all_tasks(self.loop)):
+                    coro = task.get_coro()
+                    if coro is not None and hasattr(coro, "close"):
+                        try:
+                            coro.close()  # runs the coroutine's cleanup now, in this (untraced) thread
+                        except BaseException:  # pylint: disable=broad-except
+                            pass
+            except Exception:  # pylint: disable=broad-except
+                pass
+            try:
                 self.loop._ready.clear()
                 self.loop._scheduled.clear()
                 self.loop._closed = True
@@ -346,6 +390,9 @@ class World:
                 pass
         kernel.deactivate()
         simfs.FsHolder.fs = None
+        self.gateway = None
+        self.gateways = []
+        gc.collect()
         return leaked
 
 
